@@ -167,6 +167,24 @@ def run_mono(case, ctx):
                     labels.add('single_wavelength_window')
                 if inside and len(inside) % chunk:
                     labels.add('chunk_does_not_divide_window')
+        # the parameter table is rewritten with its rows in another order (same directory, same process): the next run
+        # must follow the NEW table
+        if todo is None and nm >= 2:
+            perm2 = list(pkg['perm'][1:]) + [pkg['perm'][0]]
+            pkgio.write_parameters(d, names, pkg['params'], order=perm2)
+            cdir = os.path.join(d, 'convolved')
+            if os.path.isdir(cdir):
+                shutil.rmtree(cdir)
+            with must_succeed('convolve_model_dir_monochromatic after the parameter table was re-ordered'), quiet():
+                convolve_model_dir_monochromatic(d)
+            order2 = [names[i] for i in perm2]
+            for fn in sorted(os.listdir(cdir)):
+                t = pkgio.read_convolved(os.path.join(cdir, fn))
+                if t['names'] != order2:
+                    fail('after parameters.fits was rewritten with rows %r, %s still has rows %r' % (order2, fn, t['names']),
+                         'c16:stale_table_order')
+            labels.add('table_reordered_in_place')
+            nruns += 1
     ctx.labels['runs'] += nruns
     return labels, nw >= 3 and nm >= 2
 
